@@ -288,10 +288,16 @@ def run_cbmc(gb, unwind=None, unwindset=None, flags=(), timeout=300, trace=False
 def pmap(fn, items, jobs=None):
     jobs = jobs or JOBS
     res = [None] * len(items)
+    done = 0
+    t0 = time.time()
     with cf.ThreadPoolExecutor(max_workers=jobs) as ex:
         futs = {ex.submit(fn, it): i for i, it in enumerate(items)}
         for fu in cf.as_completed(futs):
             res[futs[fu]] = fu.result()
+            done += 1
+            if done % 50 == 0 and os.environ.get("VF_PROGRESS"):
+                sys.stderr.write("progress %d/%d %.0fs\n" % (done, len(items), time.time() - t0))
+                sys.stderr.flush()
     return res
 
 
